@@ -246,7 +246,8 @@ C02_CLAUSES = {1: "a balance decreased without its holder's own call or a valid 
                4: "failed call emitted messages"}
 C13_CLAUSES = {1: "supply increased other than by a Mint from the current minter", 2: "supply above the cap",
                3: "minter role or cap changed other than by the current minter's UpdateMinter",
-               4: "Mint/UpdateMinter by a non-minter succeeded"}
+               4: "Mint/UpdateMinter by a non-minter succeeded",
+               5: "the listed balances add up to more than the cap"}
 C19_CLAUSES = {1: "owner listing and single-allowance query disagree", 2: "spender listing has an entry the owner listing lacks or differs from",
                3: "owner listing has an entry the spender listing lacks or differs from"}
 
@@ -329,7 +330,9 @@ C08_CLAUSES = {1: "a failed call changed an allowance", 2: "an admin's Execute o
                9: "DecreaseAllowance changed another subkey's allowance", 10: "DecreaseAllowance: wrong resulting amounts (must saturate at zero)",
                11: "a call that may not touch allowances changed one",
                12: "IncreaseAllowance left an expiry other than the requested one / that of the unexpired previous grant",
-               13: "DecreaseAllowance left an expiry other than the requested one / the previous one"}
+               13: "DecreaseAllowance left an expiry other than the requested one / the previous one",
+               14: "DecreaseAllowance accepted on a missing or expired allowance",
+               15: "IncreaseAllowance/DecreaseAllowance accepted with an expiry that is already past"}
 C16_CLAUSES = {1: "CanExecute answered differently from the Execute made right after it"}
 C17_CLAUSES = {1: "admin list or frozen flag changed other than by UpdateAdmins/Freeze of a current admin while mutable",
                2: "an allowance or permission entry changed without an admin's grant call naming it (or the subkey's own spending)",
@@ -468,6 +471,7 @@ C03_CLAUSES = {1: "status Passed although the recorded ballots do not pass the r
                5: "status Rejected although not expired and the proposal can still pass", 6: "status Pending",
                7: "the threshold rule aborts on an in-range tally",
                9: "the single-proposal query or the reverse listing reports a proposal differently from ListProposals",
+               10: "Execute refused although the proposal is reported Passed and the caller is authorised",
                200: "ballots outweigh the proposal's total (the rule itself is undefined)"}
 C05_CLAUSES = {1: "messages dispatched for a proposal that was not Passed", 2: "a proposal dispatched twice in one transaction",
                3: "dispatched messages differ from refund + the proposed messages", 4: "Execute by an unauthorised caller",
@@ -476,7 +480,8 @@ C05_CLAUSES = {1: "messages dispatched for a proposal that was not Passed", 2: "
                10: "a failed transaction changed proposals", 11: "proposal ids are not 1,2,3,...", 12: "a proposal disappeared",
                13: "content/threshold/total/expiry/proposer/deposit of an existing proposal changed", 14: "a proposal's status moved backwards",
                15: "a new proposal expires later than the maximum voting period",
-               16: "the single-proposal query or the reverse listing reports a proposal differently from ListProposals"}
+               16: "the single-proposal query or the reverse listing reports a proposal differently from ListProposals",
+               17: "messages dispatched although the recorded ballots do not imply Passed"}
 C06_CLAUSES = {1: "ballots of a proposal changed other than by one new ballot of the voting address", 2: "ballot cast after expiry",
                3: "ballot cast on an executed proposal", 4: "ballot weight differs from the voter's weight in the proposal's snapshot",
                5: "zero-weight address voted", 6: "a new proposal does not hold exactly the proposer's Yes ballot",
